@@ -824,6 +824,17 @@ def setup(ctx):
     ctx.p_coerce = ctx.register(Part("coerce", gen_coerce, reqs_coerce, judge_coerce))
     ctx.p_invoke = ctx.register(Part("invoke", gen_invoke, reqs_invoke, judge_invoke))
     ctx.p_result = ctx.register(Part("result", gen_result, reqs_result, judge_result))
+    # function values that only a model can make: knowledge models and decision services whose logic is a literal expression, a decision
+    # table, a boxed context or an invocation, with a declared result type, invoked by name and from FEEL text. Generator, reference
+    # (item definitions -> FEEL types -> the same coercion rules) and judge are C11's.
+    from . import c11
+
+    def judge_model_fn(ctx, case, resp):
+        f = c11.judge_model(ctx, case, resp)
+        if f is not None and f.sig.startswith("C11/"):
+            f.sig = "C16/model-function/" + f.sig[4:]
+        return f
+    ctx.p_modelfn = ctx.register(Part("model-functions", c11.gen_depth(1), c11.reqs_model, judge_model_fn))
 
 
 def run(ctx):
@@ -846,6 +857,8 @@ def run(ctx):
     ctx.forall(ctx.p_coerce, ctx.scale(60000, 3000000))
     ctx.forall(ctx.p_invoke, ctx.scale(15000, 600000))
     ctx.forall(ctx.p_result, ctx.scale(15000, 600000))
+    if not ctx.stop():
+        ctx.forall(ctx.p_modelfn, ctx.scale(1500, 60000), batch=50)
 
 
 if __name__ == "__main__":
